@@ -29,7 +29,9 @@ void CDNS::GzipCborOutputWriter::write(const char* p, std::size_t size)
 
 void CDNS::GzipCborOutputWriter::open()
 {
-    // Initialize GZIP stream
+    // Initialize GZIP stream (input of a write that failed must not get into the new stream)
+    m_gzip.next_in = Z_NULL;
+    m_gzip.avail_in = 0;
     m_gzip.zalloc = Z_NULL;
     m_gzip.zfree = Z_NULL;
     m_gzip.opaque = Z_NULL;
@@ -48,6 +50,9 @@ void CDNS::GzipCborOutputWriter::close()
         }
     }
     catch (std::exception& e) {
+        // The output is incomplete, rotate_output() caller finds out with close_failed()
+        m_failed = true;
+        deflateEnd(&m_gzip);
         std::cerr << e.what() << std::endl;
     }
 }
@@ -102,6 +107,9 @@ void CDNS::XzCborOutputWriter::close()
         }
     }
     catch (std::exception& e) {
+        // The output is incomplete, rotate_output() caller finds out with close_failed()
+        m_failed = true;
+        lzma_end(&m_lzma);
         std::cerr << e.what() << std::endl;
     }
 }
